@@ -1,0 +1,11 @@
+//go:build !verif
+
+package transport_controller
+
+import (
+	"github.com/aperturerobotics/bifrost/link"
+	"github.com/aperturerobotics/bifrost/peer"
+)
+
+// verifLinkDialerStore is a no-op unless built with the verif tag.
+func verifLinkDialerStore(c *Controller, peerID peer.ID, addr string, lnk link.Link) {}
